@@ -597,6 +597,21 @@ class Interp:
         if isinstance(container, VObj) and container.tag in ('symset', 'symdict'):
             from . import symcoll
             return symcoll.contains(self, container, item)
+        if isinstance(container, VSeq) and container.pred is None and isinstance(item, (VNone, VBool, VInt, VStr, VAny)):
+            # membership in a sequence of symbolic length: t <=> exists i. seq[i] is / == item, given
+            # as two definitional facts (a witness for t, a universal fact for not t), like any()
+            vs = container
+            t = z3.Bool(fresh_name('in'))
+            w = fresh_int('inw')
+            j = z3.Int(fresh_name('inq'))
+
+            def hit(ix):
+                e = vs.elem(ix)
+                return z3.Or(self._is_or_false(item, e), self.py_eq(item, e))
+            ctx = self.ex.ctx
+            ctx.add(z3.Implies(t, z3.And(w >= 0, w < vs.src_len, hit(w))))
+            ctx.add(z3.Implies(z3.Not(t), z3.ForAll([j], z3.Implies(z3.And(j >= 0, j < vs.src_len), z3.Not(hit(j))))))
+            return t
         raise Unsupported(f'in on {container!r}')
 
     def _is_or_false(self, a, b):
